@@ -63,6 +63,43 @@ def _prepare(only=None):
         stem = pf[:-3]
         with open(os.path.join(SCRATCH, src), 'a') as f:
             f.write(f'\n#[cfg(test)]\n#[path = "{p}"]\nmod verif_replay_{stem};\n')
+    stamp_sources(SCRATCH, 'probe-src-stamps.json')
+
+
+def stamp_sources(SCRATCH, man_name):
+    """cargo decides what to rebuild from file modification times, and the scratch copy is rebuilt from whatever tree the check is
+    pointed at (rsync keeps that tree's times): a file whose CONTENT differs from the one last built may carry an OLDER time (another
+    worktree, `git checkout` of an earlier version) and would be taken for unchanged -- a stale build. So times are made a function
+    of content: a source whose hash differs from the last copy gets the current time, an unchanged one keeps the time it had then."""
+    import hashlib
+    man_path = os.path.join(VERIF, '.cache', man_name)
+    try:
+        man = json.load(open(man_path))
+    except Exception:
+        man = {}
+    now = time.time()
+    new = {}
+    for root, dirs, files in os.walk(SCRATCH):
+        dirs[:] = [d for d in dirs if d not in ('target', '.git')]
+        for fn in files:
+            if not (fn.endswith('.rs') or fn.endswith('.toml') or fn.endswith('.lock') or fn.endswith('.pem') or fn.endswith('.der') or fn.endswith('.mla')):
+                continue
+            fp = os.path.join(root, fn)
+            rel = os.path.relpath(fp, SCRATCH)
+            try:
+                h = hashlib.sha1(open(fp, 'rb').read()).hexdigest()
+            except OSError:
+                continue
+            old = man.get(rel)
+            if old and old[0] == h:
+                t = old[1]
+            else:
+                t = now
+            os.utime(fp, (t, t))
+            new[rel] = [h, t]
+    # the probe files themselves are read from /verif/probes through #[path]: their own times are real and only move forward
+    os.makedirs(os.path.dirname(man_path), exist_ok=True)
+    json.dump(new, open(man_path, 'w'))
 
 
 def run_probe(tests, keep=False, _only=None):
